@@ -1,39 +1,42 @@
 #!/usr/bin/env python3
-"""Generate MANIFEST.json from checks.tsv (which checks exist) + manifest_src.json (wording)."""
-import json
+"""Generate MANIFEST.json from cmd/*/META.json (which checks exist, their wording) and
+manifest_src.json (hooks, engines, notes, reasons for unclaimed properties)."""
+import json, glob, os
 src = json.load(open("/verif/manifest_src.json"))
 props = [json.loads(l)["id"] for l in open("/verif/properties.jsonl")]
-have = {}
-for l in open("/verif/checks.tsv"):
-    l = l.rstrip("\n")
-    if not l or l.startswith("#"): continue
-    f = l.split("\t")
-    have[f[0]] = f
+parts = {}
+for f in sorted(glob.glob("/verif/cmd/*/META.json")):
+    cmd = os.path.basename(os.path.dirname(f))
+    for c in json.load(open(f))["checks"]:
+        if c.get("disabled"): continue
+        c["cmd"] = cmd
+        parts.setdefault(c["id"], []).append(c)
 checks, na = [], []
 for p in props:
-    meta = src["properties"].get(p, {})
-    if p in have and meta.get("claim", True):
+    if p in parts:
+        ps = parts[p]
+        join = lambda k, sep: sep.join(dict.fromkeys(x[k] for x in ps if x.get(k)))
         checks.append({
             "property_id": p,
             "quick_cmd": f"./check.sh {p} quick",
             "thorough_cmd": f"./check.sh {p} thorough",
             "evidence_file": f"/verif/evidence/{p}.json",
             "replay_cmd_template": "./check.sh replay {path}",
-            "engine": meta.get("engine", "enum"),
-            "level_claimed": {"category": "model_checking", "text": meta["text"], "design_ref": meta.get("design_ref", "DESIGN.md §3 " + p)},
-            "level_note": meta["note"],
-            "technique": meta["technique"],
+            "engine": join("engine", "+"),
+            "level_claimed": {"category": "model_checking", "text": join("text", " | "), "design_ref": "DESIGN.md §3 " + p},
+            "level_note": join("note", " | "),
+            "technique": join("technique", "; "),
         })
     else:
-        na.append({"property_id": p, "reason": meta.get("na_reason", src["default_na_reason"])})
-m = {
-    "version": 1,
-    "setup_cmd": "./setup.sh",
-    "hooks": src["hooks"],
-    "engines": src["engines"],
-    "checks": checks,
-    "not_applicable": na,
-    "notes": src["notes"],
-}
+        na.append({"property_id": p, "reason": src["na_reasons"].get(p, src["default_na_reason"])})
+served = {}
+for p, ps in parts.items():
+    for x in ps:
+        for e in x.get("engine", "enum").split("+"):
+            served.setdefault(e, set()).add(p)
+for e in src["engines"]:
+    e["serves_properties"] = sorted(served.get(e["name"], []))
+m = {"version": 1, "setup_cmd": "./setup.sh", "hooks": src["hooks"], "engines": src["engines"],
+     "checks": checks, "not_applicable": na, "notes": src["notes"]}
 json.dump(m, open("/verif/MANIFEST.json", "w"), indent=1)
 print(f"MANIFEST.json: {len(checks)} checks, {len(na)} not_applicable")
